@@ -90,8 +90,9 @@ def read_all_rules():
         Rule('buffers.back().data()', 'vsv_back_data(&buffers)', count=1),
         SYS('+'),
         Rule(r'buffers\.back\(\)\.resize\(', 'vsv_back_resize(&buffers, ', count=None, regex=True),
-        Rule('buffers.size()', 'vsv_size(&buffers)', count=1),
-        Rule('return buffers.back();', '{ vsv_copy_back(ret, &buffers); return; }', count=1),
+        Rule('buffers.size()', 'vsv_size(&buffers)', count=None),
+        Rule(r'return (?:move\()?buffers\.back\(\)\)?;', '{ vsv_copy_back(ret, &buffers); return; }', count=None, regex=True),
+        Rule(r'return (?:move\()?buffers\.front\(\)\)?;', '{ vsv_front_out(ret, &buffers); return; }', count=None, regex=True),
         Rule(r'string ret;', '', count=1, regex=True),
         Rule(r'ret\.reserve\(', 'vsv_reserve(ret, ', count=1, regex=True),
         Rule(r'for \(const string& (\w+) : buffers\) \{',
@@ -113,12 +114,12 @@ def loops_unit(ctx, src):
                rules=[Rule(r'deque<string> blocks;', 'vsv blocks; vsv_init(&blocks);', count=1, regex=True),
                       Rule(r'string& block = blocks\.emplace_back\(', 'vsv_emplace_back(&blocks, ', count=1, regex=True),
                       SYS('+'),
-                      Rule(r'\bblock\.(data|c_str)\(\)', 'vsv_back_data(&blocks)', count=2, regex=True),
-                      Rule('block.size()', 'vsv_back_size(&blocks)', count=1),
-                      Rule(r'\bblock\[([^\]]+)\]', r'vsv_back_at(&blocks, \1)', count=1, regex=True),
+                      Rule(r'\bblock\.(data|c_str)\(\)', 'vsv_back_data(&blocks)', count='+', regex=True),
+                      Rule('block.size()', 'vsv_back_size(&blocks)', count='+'),
+                      Rule(r'\bblock\[([^\]]+)\]', r'vsv_back_at(&blocks, \1)', count=None, regex=True),
                       Rule(r'\bblock\.resize\(', 'vsv_back_resize(&blocks, ', count=None, regex=True),
                       Rule('blocks.pop_back();', 'vsv_pop_back(&blocks);', count=1),
-                      Rule('blocks.size()', 'vsv_size(&blocks)', count=1),
+                      Rule('blocks.size()', 'vsv_size(&blocks)', count=None),
                       Rule('return move(blocks.front());', '{ vsv_front_out(ret, &blocks); return; }', count=1),
                       Rule('return join(blocks);', '{ vsv_concat_out(ret, &blocks); return; }', count=1)])
     return u
